@@ -5,9 +5,11 @@ import Mathlib.Tactic
 /-!
 # CnfSem: definitions of the abstract z3 functions of `/verif/pyvc/specs.py` and proofs of every
 lemma schema that `specs.py` instantiates (functions `_l_len`, `_l_clen`, `_l2`, `_lct`, `_lbasic`,
-`_lcbasic`, `_on_terms`, `_sem_on_terms`).
+`_ltbasic`, `_lobasic`, `_lcbasic`, `_on_terms`, `_opb_on_terms`, `_opb_sem`, `_lit_neg`, `_sem_on_terms`).
 
-Interpretation of the z3 sorts:   Asg := ℕ → Bool,   ISeq := List ℤ,   CSeq := List (List ℤ).
+Interpretation of the z3 sorts:   Asg := ℕ → Bool,   ISeq := List ℤ,   CSeq := List (List ℤ),
+TSeq := List (ℤ × ℤ),   Con := structure (terms, op : String, value),   OSeq := List Con,
+Array Int Int := ℤ → ℤ (Select = application, Store = Function.update).
 Every z3 function of sort `Int` is ℤ-valued here as well (casts of lengths etc. are inside the
 definitions), z3 `Bool`-valued functions are `Prop`s, z3 `==` between Booleans is `↔`,
 `zmax / zmin / zabs / b2i` are defined with the same `if` as the python helpers, so each theorem
@@ -701,5 +703,852 @@ theorem blast (a : Asg) (s : ISeq) (k : ℤ) :
   unfold sat ctrue combs count countTrue
   rw [hg]
   omega
+
+
+/-! # Second batch of schemas (specs.py: `_ltbasic`, `_lobasic`, `_opb_on_terms`, `_opb_sem`, `_lit_neg`,
+    and the `apseq` / `negunits` / `signvecs` / `pfilter` / `smul` / `psum` blocks of `_on_terms`,
+    `_sem_on_terms`) -/
+
+/-! ## tools: `maxabs` and `haszero` only depend on the absolute values -/
+
+theorem maxabs_congr_natAbs : ∀ (s s' : ISeq), s.map Int.natAbs = s'.map Int.natAbs → maxabs s = maxabs s'
+  | [], [], _ => rfl
+  | [], _ :: _, h => by simp at h
+  | _ :: _, [], h => by simp at h
+  | x :: t, y :: t', h => by
+    simp only [List.map_cons, List.cons.injEq] at h
+    rw [maxabs_cons, maxabs_cons, maxabs_congr_natAbs t t' h.2, h.1]
+
+theorem haszero_iff_natAbs (s : ISeq) : haszero s ↔ (0 : ℕ) ∈ s.map Int.natAbs := by
+  unfold haszero
+  rw [List.mem_map]
+  constructor
+  · intro h; exact ⟨0, h, rfl⟩
+  · rintro ⟨x, hx, h0⟩
+    have : x = 0 := by omega
+    exact this ▸ hx
+
+theorem haszero_congr_natAbs (s s' : ISeq) (h : s.map Int.natAbs = s'.map Int.natAbs) :
+    haszero s ↔ haszero s' := by
+  rw [haszero_iff_natAbs, haszero_iff_natAbs, h]
+
+/-! ## `_lit_neg` -/
+
+/-- `_lit_neg`: `Implies(l != 0, lit_true(a, -l) == Not(lit_true(a, l)))` -/
+theorem lit_true_neg (a : Asg) (l : ℤ) : l ≠ 0 → (lit_true a (-l) ↔ ¬ lit_true a l) := by
+  intro h
+  unfold lit_true
+  rw [litTrue_neg a l h]
+  cases litTrue a l <;> simp
+
+/-! ## pseudo-Boolean terms: `TSeq := List (ℤ × ℤ)` of (coefficient, literal) -/
+
+abbrev TSeq := List (ℤ × ℤ)
+
+def tlen (t : TSeq) : ℤ := (t.length : ℤ)
+/-- `t[j]` for `0 ≤ j < len t`, `(0,0)` otherwise -/
+def tget (t : TSeq) (j : ℤ) : ℤ × ℤ := if 0 ≤ j then t.getD j.toNat (0, 0) else (0, 0)
+def tcoef (t : TSeq) (j : ℤ) : ℤ := (tget t j).1
+def tlit (t : TSeq) (j : ℤ) : ℤ := (tget t j).2
+/-- `[(1,l) for l in s]` -/
+def tunit (s : ISeq) : TSeq := s.map (fun l => ((1 : ℤ), l))
+/-- `[(-c,l) for (c,l) in t]` -/
+def tnegc (t : TSeq) : TSeq := t.map (fun p => (-p.1, p.2))
+/-- `t` with `t[i] := (c,l)` (python `t[i] = (c,l)` for `0 ≤ i < len t`; unchanged otherwise) -/
+def tset (t : TSeq) (i c l : ℤ) : TSeq := if 0 ≤ i then t.set i.toNat (c, l) else t
+/-- contribution of one term -/
+def termVal (α : Asg) (p : ℤ × ℤ) : ℤ := if litTrue α p.2 = true then p.1 else 0
+/-- sum of the coefficients of the true literals -/
+def wsum (α : Asg) (t : TSeq) : ℤ := (t.map (termVal α)).sum
+def tlits (t : TSeq) : ISeq := t.map Prod.snd
+/-- some literal is 0 -/
+def thaszero (t : TSeq) : Prop := haszero (tlits t)
+/-- max |literal|, 0 if empty -/
+def tmaxabs (t : TSeq) : ℤ := maxabs (tlits t)
+/-- every coefficient ≥ 0 -/
+def tnonneg (t : TSeq) : Prop := ∀ p ∈ t, 0 ≤ p.1
+
+/-- z3 datatype `Con = mkcon(terms, op, value)` -/
+structure Con where
+  terms : TSeq
+  op : String
+  value : ℤ
+
+/-- python `cmp_op` (same nesting of `If`) -/
+def cmp_op (op : String) (lhs rhs : ℤ) : Prop :=
+  if op = ">=" then lhs ≥ rhs else if op = "==" then lhs = rhs else if op = "<=" then lhs ≤ rhs
+  else if op = "<" then lhs < rhs else if op = ">" then lhs > rhs else False
+
+def holds (α : Asg) (c : Con) : Prop := cmp_op c.op (wsum α c.terms) c.value
+
+abbrev OSeq := List Con
+def olen (o : OSeq) : ℤ := (o.length : ℤ)
+def onil : OSeq := []
+def osnoc (o : OSeq) (c : Con) : OSeq := o ++ [c]
+def otake (o : OSeq) (k : ℤ) : OSeq := o.take k.toNat
+def osat (α : Asg) (o : OSeq) : Prop := ∀ c ∈ o, holds α c
+def omaxabs (o : OSeq) : ℤ := o.foldr (fun c m => max (tmaxabs c.terms) m) 0
+def ohaszero (o : OSeq) : Prop := ∃ c ∈ o, thaszero c.terms
+/-- every constraint: coefficients ≥ 0, op in {>=, ==} -/
+def onormal (o : OSeq) : Prop := ∀ c ∈ o, tnonneg c.terms ∧ (c.op = ">=" ∨ c.op = "==")
+
+theorem tget_of_lt (t : TSeq) (j : ℤ) (h0 : 0 ≤ j) (h1 : j < tlen t) :
+    tget t j = t[j.toNat]'(by unfold tlen at h1; omega) := by
+  unfold tlen at h1
+  have hlt : j.toNat < t.length := by omega
+  unfold tget
+  rw [if_pos h0, List.getD_eq_getElem?_getD, List.getElem?_eq_getElem hlt]
+  rfl
+
+theorem tget_mem (t : TSeq) (j : ℤ) (h0 : 0 ≤ j) (h1 : j < tlen t) : tget t j ∈ t := by
+  rw [tget_of_lt t j h0 h1]; exact List.getElem_mem _
+
+theorem tget_of_ge (t : TSeq) (j : ℤ) (h1 : tlen t ≤ j) : tget t j = (0, 0) := by
+  unfold tlen at h1
+  unfold tget
+  split
+  · rw [List.getD_eq_getElem?_getD, List.getElem?_eq_none (by omega)]; rfl
+  · rfl
+
+/-! ### `_ltbasic`, `_lobasic` -/
+
+/-- `_ltbasic`[0]: `tlen(t) >= 0` -/
+theorem tlen_nonneg (t : TSeq) : tlen t ≥ 0 := by unfold tlen; omega
+/-- `_ltbasic`[1]: `tmaxabs(t) >= 0` -/
+theorem tmaxabs_nonneg (t : TSeq) : tmaxabs t ≥ 0 := maxabs_nonneg' _
+/-- `_ltbasic`[2]: `tnonneg(t) == ForAll([j], Implies(And(0 <= j, j < tlen(t)), tcoef(t, j) >= 0))` -/
+theorem tnonneg_def (t : TSeq) : tnonneg t ↔ ∀ j : ℤ, (0 ≤ j ∧ j < tlen t) → tcoef t j ≥ 0 := by
+  unfold tnonneg tcoef
+  constructor
+  · rintro h j ⟨h0, h1⟩
+    exact h _ (tget_mem t j h0 h1)
+  · intro h p hp
+    obtain ⟨n, hn, rfl⟩ := List.getElem_of_mem hp
+    have := h (n : ℤ) ⟨by omega, by unfold tlen; omega⟩
+    rw [tget_of_lt t n (by omega) (by unfold tlen; omega)] at this
+    simpa using this
+
+theorem omaxabs_cons (c : Con) (o : OSeq) : omaxabs (c :: o) = max (tmaxabs c.terms) (omaxabs o) := rfl
+
+theorem omaxabs_nonneg' (o : OSeq) : 0 ≤ omaxabs o := by
+  induction o with
+  | nil => simp [omaxabs]
+  | cons x t ih => rw [omaxabs_cons]; omega
+
+/-- `_lobasic`[0]: `olen(o) >= 0` -/
+theorem olen_nonneg (o : OSeq) : olen o ≥ 0 := by unfold olen; omega
+/-- `_lobasic`[1]: `omaxabs(o) >= 0` -/
+theorem omaxabs_nonneg (o : OSeq) : omaxabs o ≥ 0 := omaxabs_nonneg' o
+
+/-! ### `_opb_on_terms` : `tunit` -/
+
+theorem tlits_tunit (s : ISeq) : tlits (tunit s) = s := by
+  unfold tlits tunit; rw [List.map_map]; simp [Function.comp_def]
+
+/-- `tlen(tunit(s)) == ilen(s)` -/
+theorem tlen_unit (s : ISeq) : tlen (tunit s) = ilen s := by simp [tlen, tunit, ilen]
+/-- `thaszero(tunit(s)) == haszero(s)` -/
+theorem thaszero_unit (s : ISeq) : thaszero (tunit s) ↔ haszero s := by
+  unfold thaszero; rw [tlits_tunit]
+/-- `tmaxabs(tunit(s)) == maxabs(s)` -/
+theorem tmaxabs_unit (s : ISeq) : tmaxabs (tunit s) = maxabs s := by
+  unfold tmaxabs; rw [tlits_tunit]
+/-- `tnonneg(tunit(s))` -/
+theorem tnonneg_unit (s : ISeq) : tnonneg (tunit s) := by
+  unfold tnonneg tunit
+  intro p hp
+  obtain ⟨l, _, rfl⟩ := List.mem_map.mp hp
+  simp
+
+/-! ### `_opb_on_terms` : `tnegc` -/
+
+theorem tlits_tnegc (t : TSeq) : tlits (tnegc t) = tlits t := by
+  unfold tlits tnegc; rw [List.map_map]; rfl
+
+/-- `tlen(tnegc(t)) == tlen(t)` -/
+theorem tlen_negc (t : TSeq) : tlen (tnegc t) = tlen t := by simp [tlen, tnegc]
+/-- `thaszero(tnegc(t)) == thaszero(t)` -/
+theorem thaszero_negc (t : TSeq) : thaszero (tnegc t) ↔ thaszero t := by
+  unfold thaszero; rw [tlits_tnegc]
+/-- `tmaxabs(tnegc(t)) == tmaxabs(t)` -/
+theorem tmaxabs_negc (t : TSeq) : tmaxabs (tnegc t) = tmaxabs t := by
+  unfold tmaxabs; rw [tlits_tnegc]
+
+theorem tget_negc (t : TSeq) (j : ℤ) : tget (tnegc t) j = (-(tget t j).1, (tget t j).2) := by
+  unfold tget tnegc
+  split
+  · rw [List.getD_eq_getElem?_getD, List.getD_eq_getElem?_getD, List.getElem?_map]
+    cases t[j.toNat]? <;> simp
+  · simp
+
+/-- `ForAll([j], And(tcoef(tnegc(t), j) == -tcoef(t, j), tlit(tnegc(t), j) == tlit(t, j)))` -/
+theorem tget_negc_forall (t : TSeq) :
+    ∀ j : ℤ, tcoef (tnegc t) j = -tcoef t j ∧ tlit (tnegc t) j = tlit t j := by
+  intro j
+  unfold tcoef tlit
+  rw [tget_negc]
+  exact ⟨rfl, rfl⟩
+
+/-! ### `_opb_on_terms` : `tset` -/
+
+/-- `tlen(tset(t, i, c, l)) == tlen(t)` -/
+theorem tlen_set (t : TSeq) (i c l : ℤ) : tlen (tset t i c l) = tlen t := by
+  unfold tlen tset; split <;> simp
+
+/-- read-over-write, STRONGEST TRUE FORM for lists (holds for every `i`, `j`):
+    the write is visible at `j = i` only if `i` is a valid index. -/
+theorem tget_set_general (t : TSeq) (i c l j : ℤ) :
+    tget (tset t i c l) j = if j = i ∧ 0 ≤ i ∧ i < tlen t then (c, l) else tget t j := by
+  unfold tset tget tlen
+  by_cases hi : 0 ≤ i
+  · by_cases hj : 0 ≤ j
+    · simp only [hi, hj, if_true, true_and]
+      rw [List.getD_eq_getElem?_getD, List.getD_eq_getElem?_getD, List.getElem?_set]
+      by_cases hji : j = i
+      · subst hji
+        by_cases hlt : j < (t.length : ℤ)
+        · have : j.toNat < t.length := by omega
+          simp [this, hlt]
+        · have : ¬ j.toNat < t.length := by omega
+          simp [this, hlt]
+      · have : i.toNat ≠ j.toNat := by omega
+        simp [this, hji]
+    · have hji : j ≠ i := by omega
+      simp [hi, hj, hji]
+  · have : ¬ (j = i ∧ 0 ≤ i ∧ i < (t.length : ℤ)) := by omega
+    simp [hi]
+
+/-- `And(0 <= i, i < tlen(t)) -> ForAll([j], And(tcoef(n, j) == If(j == i, c, tcoef(t, j)),
+    tlit(n, j) == If(j == i, l, tlit(t, j))))` with `n = tset(t, i, c, l)`.
+    DISCREPANCY: specs.py emits the `ForAll` WITHOUT the guard `0 <= i < tlen(t)`; unguarded it is
+    false for lists (e.g. `t = []`, `i = 0`, `c = 1`: `tcoef(n, 0) = 0 ≠ 1`). -/
+theorem tget_set_forall (t : TSeq) (i c l : ℤ) : (0 ≤ i ∧ i < tlen t) →
+    ∀ j : ℤ, tcoef (tset t i c l) j = (if j = i then c else tcoef t j) ∧
+             tlit (tset t i c l) j = (if j = i then l else tlit t j) := by
+  rintro ⟨h0, h1⟩ j
+  unfold tcoef tlit
+  rw [tget_set_general]
+  by_cases hji : j = i
+  · simp [hji, h0, h1]
+  · simp [hji]
+
+/-- for `j ≠ i` the read-over-write formula holds without any guard -/
+theorem tget_set_ne (t : TSeq) (i c l j : ℤ) (h : j ≠ i) :
+    tcoef (tset t i c l) j = tcoef t j ∧ tlit (tset t i c l) j = tlit t j := by
+  unfold tcoef tlit
+  rw [tget_set_general]
+  simp [h]
+
+theorem tlits_set_natAbs (t : TSeq) (i c l : ℤ) (h0 : 0 ≤ i) (h1 : i < tlen t)
+    (habs : zabs l = zabs (tlit t i)) :
+    (tlits (tset t i c l)).map Int.natAbs = (tlits t).map Int.natAbs := by
+  have hg := tget_of_lt t i h0 h1
+  unfold tlen at h1
+  have hlt : i.toNat < t.length := by omega
+  rw [zabs_eq_natAbs, zabs_eq_natAbs] at habs
+  unfold tlit at habs
+  rw [hg] at habs
+  unfold tset tlits
+  rw [if_pos h0, List.map_set, List.map_set]
+  apply List.ext_getElem
+  · simp
+  · intro n hn1 hn2
+    rw [List.getElem_set]
+    split
+    · next heq =>
+      subst heq
+      simp only [List.getElem_map]
+      omega
+    · rfl
+
+/-- `And(0 <= i, i < tlen(t), zabs(l) == zabs(tlit(t, i))) ->
+    And(thaszero(n) == thaszero(t), tmaxabs(n) == tmaxabs(t))`, `n = tset(t, i, c, l)` -/
+theorem thaszero_tmaxabs_set (t : TSeq) (i c l : ℤ) :
+    (0 ≤ i ∧ i < tlen t ∧ zabs l = zabs (tlit t i)) →
+    ((thaszero (tset t i c l) ↔ thaszero t) ∧ tmaxabs (tset t i c l) = tmaxabs t) := by
+  rintro ⟨h0, h1, habs⟩
+  have := tlits_set_natAbs t i c l h0 h1 habs
+  exact ⟨haszero_congr_natAbs _ _ this, maxabs_congr_natAbs _ _ this⟩
+
+/-! ### `_opb_on_terms` : `tlit` -/
+
+theorem tlit_mem (t : TSeq) (i : ℤ) (h0 : 0 ≤ i) (h1 : i < tlen t) : tlit t i ∈ tlits t := by
+  unfold tlit tlits
+  exact List.mem_map.mpr ⟨tget t i, tget_mem t i h0 h1, rfl⟩
+
+/-- `And(0 <= i, i < tlen(t), Not(thaszero(t))) -> tlit(t, i) != 0` -/
+theorem tlit_ne_zero (t : TSeq) (i : ℤ) : (0 ≤ i ∧ i < tlen t ∧ ¬ thaszero t) → tlit t i ≠ 0 := by
+  rintro ⟨h0, h1, hz⟩ h
+  apply hz
+  unfold thaszero haszero
+  rw [← h]; exact tlit_mem t i h0 h1
+
+/-- `And(0 <= i, i < tlen(t)) -> zabs(tlit(t, i)) <= tmaxabs(t)` -/
+theorem tlit_le_maxabs (t : TSeq) (i : ℤ) : (0 ≤ i ∧ i < tlen t) → zabs (tlit t i) ≤ tmaxabs t := by
+  rintro ⟨h0, h1⟩
+  rw [zabs_eq_natAbs]
+  exact natAbs_le_maxabs _ _ (tlit_mem t i h0 h1)
+
+/-! ### `_opb_on_terms` : `osnoc`, `otake`, constants -/
+
+theorem omaxabs_append (o p : OSeq) : omaxabs (o ++ p) = max (omaxabs o) (omaxabs p) := by
+  induction o with
+  | nil => have := omaxabs_nonneg' p; simp [omaxabs] at *; omega
+  | cons y s ih => rw [List.cons_append, omaxabs_cons, omaxabs_cons, ih]; omega
+
+/-- `olen(osnoc(o, c)) == olen(o) + 1` -/
+theorem olen_snoc (o : OSeq) (c : Con) : olen (osnoc o c) = olen o + 1 := by simp [olen, osnoc]
+
+/-- `omaxabs(osnoc(o, c)) == zmax(omaxabs(o), tmaxabs(Con.terms(c)))` -/
+theorem omaxabs_snoc (o : OSeq) (c : Con) :
+    omaxabs (osnoc o c) = zmax (omaxabs o) (tmaxabs c.terms) := by
+  rw [zmax_eq_max]
+  unfold osnoc
+  rw [omaxabs_append]
+  have := tmaxabs_nonneg c.terms
+  simp only [omaxabs, List.foldr]
+  omega
+
+/-- `ohaszero(osnoc(o, c)) == Or(ohaszero(o), thaszero(Con.terms(c)))` -/
+theorem ohaszero_snoc (o : OSeq) (c : Con) :
+    ohaszero (osnoc o c) ↔ (ohaszero o ∨ thaszero c.terms) := by
+  unfold ohaszero osnoc
+  constructor
+  · rintro ⟨t, ht, h0⟩
+    rcases List.mem_append.mp ht with h | h
+    · exact Or.inl ⟨t, h, h0⟩
+    · rw [List.mem_singleton] at h; subst h; exact Or.inr h0
+  · rintro (⟨t, ht, h0⟩ | h)
+    · exact ⟨t, List.mem_append_left _ ht, h0⟩
+    · exact ⟨c, List.mem_append_right _ (List.mem_singleton.mpr rfl), h⟩
+
+/-- `onormal(osnoc(o, c)) == And(onormal(o), tnonneg(Con.terms(c)),
+    Or(Con.op(c) == '>=', Con.op(c) == '=='))` -/
+theorem onormal_snoc (o : OSeq) (c : Con) :
+    onormal (osnoc o c) ↔ (onormal o ∧ tnonneg c.terms ∧ (c.op = ">=" ∨ c.op = "==")) := by
+  unfold onormal osnoc
+  constructor
+  · intro h
+    exact ⟨fun d hd => h d (List.mem_append_left _ hd),
+           h c (List.mem_append_right _ (List.mem_singleton.mpr rfl))⟩
+  · rintro ⟨h1, h2⟩ d hd
+    rcases List.mem_append.mp hd with h | h
+    · exact h1 d h
+    · rw [List.mem_singleton] at h; subst h; exact h2
+
+/-- `otake(osnoc(o, c), olen(o)) == o` -/
+theorem otake_snoc_len (o : OSeq) (c : Con) : otake (osnoc o c) (olen o) = o := by
+  simp [otake, osnoc, olen]
+
+/-- `And(o == osnoc(o2, c2), 0 <= k, k <= olen(o2)) -> otake(o, k) == otake(o2, k)` -/
+theorem otake_snoc_le_of_eq (o o2 : OSeq) (c2 : Con) (k : ℤ) :
+    (o = osnoc o2 c2 ∧ 0 ≤ k ∧ k ≤ olen o2) → otake o k = otake o2 k := by
+  rintro ⟨rfl, h0, h1⟩
+  unfold olen at h1
+  unfold otake osnoc
+  exact List.take_append_of_le_length (by omega)
+
+/-- `k == olen(o) -> otake(o, k) == o` -/
+theorem otake_all (o : OSeq) (k : ℤ) : k = olen o → otake o k = o := by
+  rintro rfl; simp [otake, olen]
+
+/-- `And(0 <= k, k <= k3, k3 <= olen(o3), o == otake(o3, k3)) -> otake(o, k) == otake(o3, k)` -/
+theorem otake_take (o o3 : OSeq) (k k3 : ℤ) :
+    (0 ≤ k ∧ k ≤ k3 ∧ k3 ≤ olen o3 ∧ o = otake o3 k3) → otake o k = otake o3 k := by
+  rintro ⟨h0, h1, _, rfl⟩
+  unfold otake
+  rw [List.take_take, min_eq_left (by omega)]
+
+/-- `olen(onil) == 0` -/
+theorem olen_nil : olen onil = 0 := rfl
+/-- `omaxabs(onil) == 0` -/
+theorem omaxabs_nil : omaxabs onil = 0 := rfl
+/-- `Not(ohaszero(onil))` -/
+theorem ohaszero_nil : ¬ ohaszero onil := by rintro ⟨t, ht, _⟩; cases ht
+/-- `onormal(onil)` -/
+theorem onormal_nil : onormal onil := by intro c hc; cases hc
+
+/-! ### `_opb_sem` -/
+
+/-- `osat(a, onil)` -/
+theorem osat_nil (a : Asg) : osat a onil := by intro c hc; cases hc
+
+/-- `wsum(a, tunit(s)) == count(a, s)` -/
+theorem wsum_unit (a : Asg) (s : ISeq) : wsum a (tunit s) = count a s := by
+  unfold wsum tunit count countTrue
+  induction s with
+  | nil => simp
+  | cons x t ih =>
+    simp only [List.map_cons, List.sum_cons, List.countP_cons, ih, termVal]
+    by_cases h : litTrue a x = true
+    · simp [h]; ring
+    · simp [h]
+
+/-- `wsum(a, tnegc(t)) == -wsum(a, t)` -/
+theorem wsum_negc (a : Asg) (t : TSeq) : wsum a (tnegc t) = -wsum a t := by
+  unfold wsum tnegc
+  induction t with
+  | nil => simp
+  | cons x t ih =>
+    simp only [List.map_cons, List.sum_cons, ih, termVal]
+    split <;> ring
+
+theorem wsum_set_nat (a : Asg) (t : TSeq) (n : ℕ) (p : ℤ × ℤ) (h : n < t.length) :
+    wsum a (t.set n p) = wsum a t - termVal a t[n] + termVal a p := by
+  unfold wsum
+  induction t generalizing n with
+  | nil => simp at h
+  | cons x t ih =>
+    cases n with
+    | zero => simp; ring
+    | succ m =>
+      have hm : m < t.length := by simpa using h
+      simp only [List.set_cons_succ, List.map_cons, List.sum_cons, List.getElem_cons_succ, ih m hm]
+      ring
+
+/-- `And(0 <= i, i < tlen(t)) -> wsum(a, tset(t, i, c, l)) ==
+    wsum(a, t) - tcoef(t, i) * b2i(lit_true(a, tlit(t, i))) + c * b2i(lit_true(a, l))` -/
+theorem wsum_set (a : Asg) (t : TSeq) (i c l : ℤ) : (0 ≤ i ∧ i < tlen t) →
+    wsum a (tset t i c l) =
+      wsum a t - tcoef t i * b2i (lit_true a (tlit t i)) + c * b2i (lit_true a l) := by
+  rintro ⟨h0, h1⟩
+  have hg := tget_of_lt t i h0 h1
+  have hlt : i.toNat < t.length := by unfold tlen at h1; omega
+  unfold tset tcoef tlit
+  rw [if_pos h0, wsum_set_nat a t i.toNat (c, l) hlt, hg]
+  unfold termVal b2i lit_true
+  by_cases h1 : litTrue a (t[i.toNat]).2 = true <;> by_cases h2 : litTrue a l = true <;> simp [h1, h2]
+
+/-- `osat(a, osnoc(o, c)) == And(osat(a, o), holds(a, c))` -/
+theorem osat_snoc (a : Asg) (o : OSeq) (c : Con) : osat a (osnoc o c) ↔ (osat a o ∧ holds a c) := by
+  unfold osat osnoc
+  constructor
+  · intro h
+    exact ⟨fun d hd => h d (List.mem_append_left _ hd),
+           h c (List.mem_append_right _ (List.mem_singleton.mpr rfl))⟩
+  · rintro ⟨h1, h2⟩ d hd
+    rcases List.mem_append.mp hd with h | h
+    · exact h1 d h
+    · rw [List.mem_singleton] at h; subst h; exact h2
+
+/-- `holds(a, c) == cmp_op(Con.op(c), wsum(a, Con.terms(c)), Con.value(c))` (definitional) -/
+theorem holds_def (a : Asg) (c : Con) : holds a c ↔ cmp_op c.op (wsum a c.terms) c.value := Iff.rfl
+
+/-! ## mixed radix: `psum(I, W, t) = Σ_{s<t} (I[s]-1)·W[s]`; z3 arrays `Int → Int` are functions `ℤ → ℤ`,
+    `Select(I, t) = I t`, `Store(I0, k, v) = Function.update I0 k v` -/
+
+def psumN (I W : ℤ → ℤ) : ℕ → ℤ
+  | 0 => 0
+  | n + 1 => psumN I W n + (I n - 1) * W n
+
+def psum (I W : ℤ → ℤ) (t : ℤ) : ℤ := psumN I W t.toNat
+
+/-- adequacy: `psumN` is the finite sum -/
+theorem psumN_eq_sum (I W : ℤ → ℤ) (n : ℕ) :
+    psumN I W n = ∑ s ∈ Finset.range n, (I s - 1) * W s := by
+  induction n with
+  | zero => simp [psumN]
+  | succ n ih => rw [Finset.sum_range_succ, ← ih]; rfl
+
+/-- `t == 0 -> psum(I, W, t) == 0` -/
+theorem psum_zero (I W : ℤ → ℤ) (t : ℤ) : t = 0 → psum I W t = 0 := by
+  rintro rfl; rfl
+
+/-- `t >= 0 -> psum(I, W, t + 1) == psum(I, W, t) + (Select(I, t) - 1) * Select(W, t)` -/
+theorem psum_succ (I W : ℤ → ℤ) (t : ℤ) :
+    t ≥ 0 → psum I W (t + 1) = psum I W t + (I t - 1) * W t := by
+  intro h
+  unfold psum
+  have h1 : (t + 1).toNat = t.toNat + 1 := by omega
+  have h2 : ((t.toNat : ℕ) : ℤ) = t := by omega
+  rw [h1, psumN, h2]
+
+/-- `t >= 1 -> psum(I, W, t) == psum(I, W, t - 1) + (Select(I, t - 1) - 1) * Select(W, t - 1)` -/
+theorem psum_pred (I W : ℤ → ℤ) (t : ℤ) :
+    t ≥ 1 → psum I W t = psum I W (t - 1) + (I (t - 1) - 1) * W (t - 1) := by
+  intro h
+  have := psum_succ I W (t - 1) (by omega)
+  rwa [sub_add_cancel] at this
+
+/-- `k >= t -> psum(Store(I0, k, v), W, t) == psum(I0, W, t)` -/
+theorem psum_store_ge (I0 W : ℤ → ℤ) (k v t : ℤ) :
+    k ≥ t → psum (Function.update I0 k v) W t = psum I0 W t := by
+  intro h
+  unfold psum
+  have key : ∀ n : ℕ, (n : ℤ) ≤ k → psumN (Function.update I0 k v) W n = psumN I0 W n := by
+    intro n
+    induction n with
+    | zero => intro _; rfl
+    | succ n ih =>
+      intro hn
+      have hne : (n : ℤ) ≠ k := by omega
+      rw [psumN, psumN, ih (by omega), Function.update_of_ne hne]
+  by_cases ht : 0 ≤ t
+  · exact key _ (by omega)
+  · have : t.toNat = 0 := by omega
+    rw [this]; rfl
+
+/-! ## `apseq(st, n) = [st, st+1, …, st+n-1]` -/
+
+def apseq (st n : ℤ) : ISeq := (List.range n.toNat).map (fun (i : ℕ) => st + (i : ℤ))
+
+/-- `n >= 0 -> ilen(apseq(st, n)) == n` -/
+theorem ilen_apseq (st n : ℤ) : n ≥ 0 → ilen (apseq st n) = n := by
+  intro h; simp [ilen, apseq]; omega
+
+/-- `n >= 0 -> haszero(apseq(st, n)) == And(st <= 0, 0 < st + n)` -/
+theorem haszero_apseq (st n : ℤ) : n ≥ 0 → (haszero (apseq st n) ↔ (st ≤ 0 ∧ 0 < st + n)) := by
+  intro h
+  unfold haszero apseq
+  rw [List.mem_map]
+  constructor
+  · rintro ⟨i, hi, h0⟩
+    rw [List.mem_range] at hi
+    omega
+  · rintro ⟨h1, h2⟩
+    exact ⟨(-st).toNat, List.mem_range.mpr (by omega), by omega⟩
+
+theorem maxabs_apseq_succ (st : ℤ) (hst : st ≥ 1) (n : ℕ) :
+    maxabs ((List.range (n + 1)).map (fun (i : ℕ) => st + (i : ℤ))) = st + n := by
+  induction n with
+  | zero => simp [maxabs]; omega
+  | succ n ih =>
+    rw [List.range_succ, List.map_append, maxabs_append, ih]
+    simp only [List.map_cons, List.map_nil, maxabs, List.foldr]
+    omega
+
+/-- `And(n >= 1, st >= 1) -> maxabs(apseq(st, n)) == st + n - 1` -/
+theorem maxabs_apseq (st n : ℤ) : (n ≥ 1 ∧ st ≥ 1) → maxabs (apseq st n) = st + n - 1 := by
+  rintro ⟨hn, hst⟩
+  unfold apseq
+  obtain ⟨m, hm⟩ : ∃ m : ℕ, n.toNat = m + 1 := ⟨n.toNat - 1, by omega⟩
+  rw [hm, maxabs_apseq_succ st hst m]
+  omega
+
+/-- `n <= 0 -> apseq(st, n) == inil` -/
+theorem apseq_nil (st n : ℤ) : n ≤ 0 → apseq st n = inil := by
+  intro h
+  have : n.toNat = 0 := by omega
+  simp [apseq, inil, this]
+
+/-- `And(0 <= i, i < n) -> iget(apseq(st, n), i) == st + i` -/
+theorem iget_apseq (st n i : ℤ) : (0 ≤ i ∧ i < n) → iget (apseq st n) i = st + i := by
+  rintro ⟨h0, h1⟩
+  unfold iget apseq
+  have hlt : i.toNat < n.toNat := by omega
+  rw [List.getD_eq_getElem?_getD, List.getElem?_map, List.getElem?_range hlt]
+  simp
+  omega
+
+/-! ## `negunits(s) = [[-l] for l in s]` -/
+
+def negunits (s : ISeq) : CSeq := s.map (fun l => [-l])
+
+/-- `clen(negunits(s)) == ilen(s)` -/
+theorem clen_negunits (s : ISeq) : clen (negunits s) = ilen s := by simp [clen, negunits, ilen]
+
+/-- `cmaxabs(negunits(s)) == maxabs(s)` -/
+theorem cmaxabs_negunits (s : ISeq) : cmaxabs (negunits s) = maxabs s := by
+  unfold negunits
+  induction s with
+  | nil => rfl
+  | cons x t ih =>
+    rw [List.map_cons, cmaxabs_cons, maxabs_cons, ih]
+    have := maxabs_nonneg' t
+    simp only [maxabs, List.foldr, Int.natAbs_neg]
+    omega
+
+/-- `chaszero(negunits(s)) == haszero(s)` -/
+theorem chaszero_negunits (s : ISeq) : chaszero (negunits s) ↔ haszero s := by
+  unfold chaszero negunits haszero
+  constructor
+  · rintro ⟨c, hc, h0⟩
+    obtain ⟨l, hl, rfl⟩ := List.mem_map.mp hc
+    rw [List.mem_singleton] at h0
+    have : l = 0 := by omega
+    exact this ▸ hl
+  · intro h
+    exact ⟨[-0], List.mem_map.mpr ⟨0, h, rfl⟩, by simp⟩
+
+/-- `Not(haszero(s)) -> sat(a, negunits(s)) == (count(a, s) == 0)` -/
+theorem sat_negunits (a : Asg) (s : ISeq) : ¬ haszero s → (sat a (negunits s) ↔ count a s = 0) := by
+  intro hz
+  unfold sat negunits ctrue count countTrue
+  have h0 : ((List.countP (litTrue a) s : ℕ) : ℤ) = 0 ↔ List.countP (litTrue a) s = 0 := by omega
+  rw [h0, List.countP_eq_zero]
+  constructor
+  · intro h l hl hlt
+    have hl0 : l ≠ 0 := fun e => hz (show (0:ℤ) ∈ s from e ▸ hl)
+    obtain ⟨x, hx, hxt⟩ := h [-l] (List.mem_map.mpr ⟨l, hl, rfl⟩)
+    rw [List.mem_singleton] at hx
+    subst hx
+    rw [litTrue_neg a l hl0, hlt] at hxt
+    simp at hxt
+  · intro h c hc
+    obtain ⟨l, hl, rfl⟩ := List.mem_map.mp hc
+    have hl0 : l ≠ 0 := fun e => hz (show (0:ℤ) ∈ s from e ▸ hl)
+    refine ⟨-l, List.mem_singleton.mpr rfl, ?_⟩
+    rw [litTrue_neg a l hl0]
+    have := h l hl
+    cases hh : litTrue a l
+    · rfl
+    · exact absurd hh this
+
+/-! ## sign vectors and the parity filter -/
+
+/-- sign vectors in the order of `itertools.product([1,-1], repeat=n)` -/
+def signs : ℕ → List (List ℤ)
+  | 0 => [[]]
+  | n+1 => (signs n).map (fun s => (1:ℤ) :: s) ++ (signs n).map (fun s => (-1:ℤ) :: s)
+
+def signvecs (n : ℤ) : CSeq := signs n.toNat
+/-- product of the entries -/
+def sprod (s : ISeq) : ℤ := s.prod
+/-- `[l*s for l,s in zip(lits, signs)]` -/
+def smul (l s : ISeq) : ISeq := List.zipWith (· * ·) l s
+/-- `[smul(l,s) for s in signvecs(len l)[:t] if sprod(s)==d]` -/
+def pfilter (l : ISeq) (d t : ℤ) : CSeq :=
+  (((signvecs (ilen l)).take t.toNat).filter (fun s => sprod s == d)).map (fun s => smul l s)
+
+theorem length_signs (b : ℕ) : (signs b).length = 2^b := by
+  induction b with
+  | zero => simp [signs]
+  | succ b ih => simp [signs, ih, pow_succ]; ring
+
+theorem signs_spec (n : ℕ) : ∀ s ∈ signs n, s.length = n ∧ ∀ x ∈ s, x.natAbs = 1 := by
+  induction n with
+  | zero => intro s hs; simp [signs] at hs; subst hs; simp
+  | succ n ih =>
+    intro s hs
+    simp only [signs, List.mem_append, List.mem_map] at hs
+    rcases hs with ⟨s', hs', rfl⟩ | ⟨s', hs', rfl⟩
+    · obtain ⟨h1, h2⟩ := ih s' hs'
+      refine ⟨by simp [h1], ?_⟩
+      intro x hx
+      rcases List.mem_cons.mp hx with rfl | hx
+      · rfl
+      · exact h2 x hx
+    · obtain ⟨h1, h2⟩ := ih s' hs'
+      refine ⟨by simp [h1], ?_⟩
+      intro x hx
+      rcases List.mem_cons.mp hx with rfl | hx
+      · rfl
+      · exact h2 x hx
+
+theorem pow2_eq (n : ℤ) : pow2 n = ((2 ^ n.toNat : ℕ) : ℤ) := by unfold pow2; push_cast; rfl
+
+/-- `n >= 0 -> clen(signvecs(n)) == pow2(n)` -/
+theorem clen_signvecs (n : ℤ) : n ≥ 0 → clen (signvecs n) = pow2 n := by
+  intro _
+  unfold clen signvecs
+  rw [length_signs, pow2_eq]
+
+theorem smul_natAbs : ∀ (l s : ISeq), s.length = l.length → (∀ x ∈ s, x.natAbs = 1) →
+    (smul l s).map Int.natAbs = l.map Int.natAbs
+  | [], [], _, _ => rfl
+  | [], _ :: _, h, _ => by simp at h
+  | _ :: _, [], h, _ => by simp at h
+  | x :: l, y :: s, h, hs => by
+    have ih := smul_natAbs l s (by simpa using h) (fun z hz => hs z (List.mem_cons_of_mem _ hz))
+    have hy := hs y List.mem_cons_self
+    unfold smul at *
+    simp only [List.zipWith_cons_cons, List.map_cons, ih, Int.natAbs_mul, hy, mul_one]
+
+theorem cget_signvecs_mem (n t : ℤ) (h0 : 0 ≤ t) (h1 : t < pow2 n) :
+    cget (signvecs n) t ∈ signs n.toNat := by
+  apply cget_mem
+  refine ⟨h0, ?_⟩
+  unfold clen
+  rw [length_signs]; rw [pow2_eq] at h1; exact h1
+
+/-- `And(n == ilen(l), 0 <= t, t < pow2(n)) -> And(maxabs(smul(l, sgn)) == maxabs(l),
+    haszero(smul(l, sgn)) == haszero(l), ilen(smul(l, sgn)) == ilen(l))`, `sgn = cget(signvecs(n), t)` -/
+theorem smul_signs (l : ISeq) (n t : ℤ) : (n = ilen l ∧ 0 ≤ t ∧ t < pow2 n) →
+    (maxabs (smul l (cget (signvecs n) t)) = maxabs l ∧
+     (haszero (smul l (cget (signvecs n) t)) ↔ haszero l) ∧
+     ilen (smul l (cget (signvecs n) t)) = ilen l) := by
+  rintro ⟨hn, h0, h1⟩
+  have hm := cget_signvecs_mem n t h0 h1
+  obtain ⟨hl, hx⟩ := signs_spec _ _ hm
+  have hlen : (cget (signvecs n) t).length = l.length := by
+    rw [hl, hn]; simp [ilen]
+  have hna := smul_natAbs l _ hlen hx
+  refine ⟨maxabs_congr_natAbs _ _ hna, haszero_congr_natAbs _ _ hna, ?_⟩
+  have := congrArg List.length hna
+  simp only [List.length_map] at this
+  unfold ilen; rw [this]
+
+theorem pfilter_mem (l : ISeq) (d t : ℤ) : ∀ c ∈ pfilter l d t,
+    c.map Int.natAbs = l.map Int.natAbs := by
+  intro c hc
+  unfold pfilter at hc
+  obtain ⟨s, hs, rfl⟩ := List.mem_map.mp hc
+  have hs' : s ∈ signs l.length := by
+    have := List.mem_of_mem_take (List.mem_of_mem_filter hs)
+    simpa [signvecs, ilen] using this
+  obtain ⟨h1, h2⟩ := signs_spec _ _ hs'
+  exact smul_natAbs l s h1 h2
+
+/-- `And(0 <= t, t <= pow2(n)) -> cmaxabs(pfilter(l, d, t)) <= maxabs(l)`, `n = ilen(l)`
+    (the guard is not needed) -/
+theorem pfilter_maxabs (l : ISeq) (d t : ℤ) :
+    (0 ≤ t ∧ t ≤ pow2 (ilen l)) → cmaxabs (pfilter l d t) ≤ maxabs l := by
+  intro _
+  rw [cmaxabs_le_iff _ _ (maxabs_nonneg' l)]
+  intro c hc
+  rw [maxabs_congr_natAbs _ _ (pfilter_mem l d t c hc)]
+
+/-- `And(0 <= t, t <= pow2(n), Not(haszero(l))) -> Not(chaszero(pfilter(l, d, t)))` -/
+theorem pfilter_no_zero (l : ISeq) (d t : ℤ) :
+    (0 ≤ t ∧ t ≤ pow2 (ilen l) ∧ ¬ haszero l) → ¬ chaszero (pfilter l d t) := by
+  rintro ⟨_, _, hz⟩ ⟨c, hc, h0⟩
+  exact hz ((haszero_congr_natAbs _ _ (pfilter_mem l d t c hc)).mp h0)
+
+/-- `t == 0 -> pfilter(l, d, t) == cnil` -/
+theorem pfilter_zero (l : ISeq) (d t : ℤ) : t = 0 → pfilter l d t = cnil := by
+  rintro rfl; simp [pfilter, cnil]
+
+/-- `And(0 <= t, t < pow2(n)) -> pfilter(l, d, t + 1) ==
+    If(sprod(sv) == d, csnoc(pfilter(l, d, t), smul(l, sv)), pfilter(l, d, t))`,
+    `n = ilen(l)`, `sv = cget(signvecs(n), t)` -/
+theorem pfilter_succ (l : ISeq) (d t : ℤ) : (0 ≤ t ∧ t < pow2 (ilen l)) →
+    pfilter l d (t + 1) =
+      if sprod (cget (signvecs (ilen l)) t) = d
+      then csnoc (pfilter l d t) (smul l (cget (signvecs (ilen l)) t))
+      else pfilter l d t := by
+  rintro ⟨h0, h1⟩
+  have hlen : t.toNat < (signvecs (ilen l)).length := by
+    unfold signvecs; rw [length_signs]; rw [pow2_eq] at h1; omega
+  have hk : (t + 1).toNat = t.toNat + 1 := by omega
+  have hget : cget (signvecs (ilen l)) t = (signvecs (ilen l))[t.toNat] := by
+    unfold cget
+    rw [List.getD_eq_getElem?_getD, List.getElem?_eq_getElem hlen]; rfl
+  unfold pfilter csnoc
+  rw [hk, List.take_add_one, List.getElem?_eq_getElem hlen, hget, List.filter_append, List.map_append]
+  by_cases hp : sprod (signvecs (ilen l))[t.toNat] = d
+  · simp [hp]
+  · simp [hp]
+
+/-! ### L6 PARITY (from design_probes/Parity.lean, restated on `sat` / `ctrue`) -/
+
+/-- the clauses `add_parity(lits, ·)` adds, for desired sign product `d` -/
+def parityClauses (lits : List ℤ) (d : ℤ) : List (List ℤ) :=
+  ((signs lits.length).filter (fun s => s.prod == d)).map (fun s => List.zipWith (· * ·) lits s)
+
+theorem sat_map_cons (α : Asg) (l : ℤ) (C : List (List ℤ)) :
+    sat α (C.map (fun c => l :: c)) ↔ (litTrue α l = true ∨ sat α C) := by
+  unfold sat ctrue
+  constructor
+  · intro h
+    by_cases hl : litTrue α l = true
+    · exact Or.inl hl
+    · right
+      intro c hc
+      obtain ⟨x, hx, hxt⟩ := h (l :: c) (List.mem_map.mpr ⟨c, hc, rfl⟩)
+      rcases List.mem_cons.mp hx with rfl | hx'
+      · exact absurd hxt hl
+      · exact ⟨x, hx', hxt⟩
+  · rintro (hl | hC) c hc
+    · obtain ⟨c', _, rfl⟩ := List.mem_map.mp hc
+      exact ⟨l, List.mem_cons_self, hl⟩
+    · obtain ⟨c', hc', rfl⟩ := List.mem_map.mp hc
+      obtain ⟨x, hx, hxt⟩ := hC c' hc'
+      exact ⟨x, List.mem_cons_of_mem _ hx, hxt⟩
+
+theorem filter_signs_succ (n : ℕ) (d : ℤ) :
+    (signs (n+1)).filter (fun s => s.prod == d) =
+      ((signs n).filter (fun s => s.prod == d)).map (fun s => (1:ℤ) :: s) ++
+      ((signs n).filter (fun s => s.prod == -d)).map (fun s => (-1:ℤ) :: s) := by
+  simp only [signs, List.filter_append, List.filter_map]
+  congr 1
+  · congr 1
+    apply List.filter_congr
+    intro s _
+    simp [Function.comp]
+  · congr 1
+    apply List.filter_congr
+    intro s _
+    simp only [Function.comp, List.prod_cons]
+    have : (-1 * s.prod == d) = (s.prod == -d) := by
+      rw [Bool.eq_iff_iff]; simp only [beq_iff_eq]; constructor <;> intro h <;> omega
+    exact this
+
+theorem parityClauses_cons (l : ℤ) (t : List ℤ) (d : ℤ) :
+    parityClauses (l :: t) d =
+      (parityClauses t d).map (fun c => l :: c) ++ (parityClauses t (-d)).map (fun c => (-l) :: c) := by
+  unfold parityClauses
+  rw [List.length_cons, filter_signs_succ, List.map_append, List.map_map, List.map_map,
+    List.map_map, List.map_map]
+  congr 1
+  · apply List.map_congr_left
+    intro s _
+    simp [Function.comp]
+  · apply List.map_congr_left
+    intro s _
+    simp [Function.comp]
+
+theorem countTrue_cons (α : Asg) (l : ℤ) (t : List ℤ) :
+    countTrue α (l :: t) = countTrue α t + (if litTrue α l = true then 1 else 0) := by
+  unfold countTrue
+  rw [List.countP_cons]
+
+/-- L6 PARITY: all clauses of `parityClauses lits d` hold iff (-1)^(number of true literals) ≠ d. -/
+theorem parity_main (α : Asg) (lits : List ℤ) (hnz : ∀ l ∈ lits, l ≠ 0) (d : ℤ)
+    (hd : d = 1 ∨ d = -1) :
+    sat α (parityClauses lits d) ↔ (-1 : ℤ) ^ (countTrue α lits) ≠ d := by
+  induction lits generalizing d with
+  | nil =>
+    unfold parityClauses sat ctrue countTrue
+    rcases hd with rfl | rfl <;> simp [signs]
+  | cons l t ih =>
+    have hl : l ≠ 0 := hnz l List.mem_cons_self
+    have ht : ∀ x ∈ t, x ≠ 0 := fun x hx => hnz x (List.mem_cons_of_mem _ hx)
+    have hd' : -d = 1 ∨ -d = -1 := by rcases hd with rfl | rfl <;> simp
+    have happ := sat_append α ((parityClauses t d).map (fun c => l :: c))
+      ((parityClauses t (-d)).map (fun c => (-l) :: c))
+    unfold capp at happ
+    rw [parityClauses_cons, happ, sat_map_cons, sat_map_cons,
+      ih ht d hd, ih ht (-d) hd', litTrue_neg α l hl, countTrue_cons]
+    by_cases hlt : litTrue α l = true
+    · simp only [hlt, if_true, true_or, true_and, Bool.not_true, pow_succ]
+      constructor
+      · rintro (h | h)
+        · exact absurd h (by simp)
+        · intro h2; apply h; linarith
+      · intro h; right; intro h2; apply h; linarith
+    · have hf : litTrue α l = false := by simpa using hlt
+      simp [hf]
+
+theorem pfilter_full (l : ISeq) (d t : ℤ) (ht : t = pow2 (ilen l)) :
+    pfilter l d t = parityClauses l d := by
+  unfold pfilter parityClauses sprod smul signvecs
+  have h1 : (ilen l).toNat = l.length := by simp [ilen]
+  rw [h1, List.take_of_length_le]
+  rw [length_signs, ht, pow2_eq, h1]
+  simp
+
+theorem neg_one_pow_ne (c : ℕ) (d : ℤ) (hd : d = 1 ∨ d = -1) :
+    ((-1 : ℤ) ^ c ≠ d) ↔ (((c : ℤ) % 2 = 1) ↔ d = 1) := by
+  rcases Nat.even_or_odd c with he | ho
+  · have h2 : (c : ℤ) % 2 = 0 := by obtain ⟨k, rfl⟩ := he; push_cast; omega
+    rw [he.neg_one_pow]
+    rcases hd with rfl | rfl <;> simp [h2]
+  · have h2 : (c : ℤ) % 2 = 1 := by obtain ⟨k, rfl⟩ := ho; push_cast; omega
+    rw [ho.neg_one_pow]
+    rcases hd with rfl | rfl <;> simp [h2]
+
+/-- L6 in z3 form: `And(Or(d == 1, d == -1), Not(haszero(l)), t == pow2(ilen(l))) ->
+    sat(a, pfilter(l, d, t)) == ((count(a, l) % 2 == 1) == (d == 1))` -/
+theorem pfilter_sat (a : Asg) (l : ISeq) (d t : ℤ) :
+    ((d = 1 ∨ d = -1) ∧ ¬ haszero l ∧ t = pow2 (ilen l)) →
+    (sat a (pfilter l d t) ↔ ((count a l % 2 = 1) ↔ d = 1)) := by
+  rintro ⟨hd, hz, ht⟩
+  rw [pfilter_full l d t ht,
+    parity_main a l (fun x hx e => hz (show (0:ℤ) ∈ l from e ▸ hx)) d hd]
+  unfold count
+  exact neg_one_pow_ne _ d hd
+
+/-! ## uninterpreted in specs.py, NO schema emitted (nothing assumed, nothing to prove):
+    `m_complete`, `m_functional`, `m_surjective`, `m_injective`, `m_nondecreasing`, `bitlen`, `rnbrs`. -/
 
 end CnfSem
